@@ -229,7 +229,7 @@ class IH5MFRecord(IH5Record):
 
         old_ub = self._ublock(-1)  # keep ref in case anything goes wrong
         # prepare new user block that links to the prospective manifest
-        new_ub = old_ub.copy()
+        new_ub = old_ub.copy(deep=True)
         IH5UBExtManifest(
             is_stub_container=is_stub,
             manifest_uuid=mf.manifest_uuid,
